@@ -1,6 +1,8 @@
 (** C14 - annotate_paths selects exactly the optimal paths for each criterion. *)
 From DynVerif Require Import Base Annotate.
-From DynVerif.proofs Require Import AnnotateFacts.
+From DynVerif Require Import PySupportPaths.
+From DynVerif.gen Require Import PyGenPaths.
+From DynVerif.proofs Require Import AnnotateFacts PyGenPathsEq.
 
 Definition minimal (m : path -> Z) (l : list path) (x : path) : Prop := In x l /\ forall y, In y l -> m x <= m y.
 
@@ -51,6 +53,34 @@ Proof.
   f_equal. f_equal. destruct p; [reflexivity|]. apply (CoreInvAux_last_default (h :: h0 :: p)). discriminate.
 Qed.
 Print Assumptions C14_metrics.
+
+(** source-level tie: the Gallina text GENERATED from dynetx/algorithms/paths.py (path_length, path_duration, annotate_paths;
+    regenerated from /repo on every run by tools/py2gallina_paths.py) is the model: on every non-empty list of paths the five
+    entries of the returned dict hold exactly the five lists of [annotate_paths] (order and multiplicity included); on []
+    Python raises TypeError and the property does not speak *)
+Theorem C14_source_text : forall (p : path) (l : list path),
+  py_path_length p = path_length p /\ py_path_duration p = path_duration p /\
+  (l <> [] ->
+   py_shortest (py_annotate_paths l) = Some (a_shortest (annotate_paths l)) /\
+   py_fastest (py_annotate_paths l) = Some (a_fastest (annotate_paths l)) /\
+   py_foremost (py_annotate_paths l) = Some (a_foremost (annotate_paths l)) /\
+   py_fastest_shortest (py_annotate_paths l) = Some (a_fastest_shortest (annotate_paths l)) /\
+   py_shortest_fastest (py_annotate_paths l) = Some (a_shortest_fastest (annotate_paths l))).
+Proof. intros p l. split; [apply py_path_length_eq|split; [apply py_path_duration_eq|apply py_annotate_paths_eq]]. Qed.
+Print Assumptions C14_source_text.
+
+(** hence the generated text itself selects exactly the minimisers *)
+Theorem C14_source_to_spec : forall (l : list path) (x : path), l <> [] ->
+  exists sh fa fo, py_shortest (py_annotate_paths l) = Some sh /\ py_fastest (py_annotate_paths l) = Some fa /\
+    py_foremost (py_annotate_paths l) = Some fo /\
+    (In x sh <-> minimal path_length l x) /\ (In x fa <-> minimal path_duration l x) /\ (In x fo <-> minimal path_last l x).
+Proof.
+  intros l x Hne. destruct (py_annotate_paths_eq l Hne) as (E1 & E2 & E3 & _).
+  exists (a_shortest (annotate_paths l)), (a_fastest (annotate_paths l)), (a_foremost (annotate_paths l)).
+  destruct (C14_primary l x) as (P1 & P2 & P3).
+  split; [exact E1|]. split; [exact E2|]. split; [exact E3|]. split; [exact P1|]. split; [exact P2|exact P3].
+Qed.
+Print Assumptions C14_source_to_spec.
 
 Example C14_example :
   let p1 := [(1, 2, 1); (2, 3, 4)] in let p2 := [(1, 3, 5)] in let p3 := [(1, 4, 2); (4, 3, 3)] in
